@@ -98,6 +98,7 @@ type Case struct {
 	Paths  []string   `json:"paths"`
 	Prefix string     `json:"prefix"`
 	Child  bool       `json:"child"`
+	Global int        `json:"global"` // child cases: the last Global options are process-wide ones (app.Settings)
 	Start  string     `json:"start"`
 	Steps  []StepSpec `json:"steps"`
 }
@@ -287,6 +288,17 @@ func runCase(c Case, setArgs bool) (out Out) {
 			}})
 			holder = reflect.New(t)
 			ops = append(ops, app.SetComponents(holder.Interface()))
+		}
+		if g := c.Global; g > 0 && !setArgs {
+			// only in a process of its own: process-wide options cannot be taken back
+			if c.Prefix != "" {
+				g++
+			}
+			if g > len(ops) {
+				g = len(ops)
+			}
+			app.Settings(ops[len(ops)-g:]...)
+			ops = ops[:len(ops)-g]
 		}
 		runErr = a.Run(ops...)
 	})
@@ -590,6 +602,7 @@ func runChild(c Case) Out {
 	defer cancel()
 	cmd := exec.CommandContext(ctx, os.Args[0], c.OsArgs...)
 	cmd.Env = append(os.Environ(), "VERIF_C15_CHILD=1")
+	cmd.Env = append(cmd.Env, lookAlikes(c.Paths)...)
 	data, _ := json.Marshal(c)
 	cmd.Stdin = bytes.NewReader(data)
 	raw, err := cmd.CombinedOutput()
@@ -608,6 +621,23 @@ func runChild(c Case) Out {
 	return Out{ID: c.ID, Out: "panic", Detail: fmt.Sprintf("child died: %v %s", err, detail)}
 }
 
+// lookAlikes: environment variables named like the configuration paths (DB_HOST for db.host, DB for the section).
+// Configuration comes from the loaders; the environment of the process is none of them.
+func lookAlikes(paths []string) []string {
+	var env []string
+	for _, p := range paths {
+		if p == "" {
+			continue
+		}
+		up := strings.ToUpper(strings.NewReplacer(".", "_", "-", "_").Replace(p))
+		env = append(env, up+"=env-intruder")
+		if i := strings.Index(p, "."); i > 0 {
+			env = append(env, strings.ToUpper(p[:i])+"=env-section-intruder")
+		}
+	}
+	return env
+}
+
 func main() {
 	hx.Quiet()
 	if os.Getenv("VERIF_C15_CHILD") == "1" {
@@ -619,6 +649,14 @@ func main() {
 	var in Input
 	hx.ReadInput(&in)
 	self := os.Args[0]
+	for _, c := range in.Cases {
+		for _, kv := range lookAlikes(c.Paths) {
+			if i := strings.Index(kv, "="); i > 0 && !strings.HasPrefix(kv, "VERIF") && !strings.HasPrefix(kv, "GO") &&
+				os.Getenv(kv[:i]) == "" {
+				os.Setenv(kv[:i], kv[i+1:])
+			}
+		}
+	}
 	outs := make([]Out, 0, len(in.Cases))
 	for _, c := range in.Cases {
 		os.Args = []string{self}
